@@ -9,6 +9,22 @@ BASELINE = ("cd /repo && env -u PYCRAFT_VERIF /venv/bin/python -m pytest -ra -q 
             "--timeout=900 --continue-on-collection-errors")
 
 CHECKS = {
+    'C20': dict(
+        technique='TLA+ definition of the trackers as functions of the packet history (Trackers.tla), explored exhaustively over a '
+                  'packet alphabet with the laws as invariants and every history replayed into the real tracker objects (S->I); long '
+                  'seeded histories validated state by state by TLC (I->S, Trace_Trackers); vector / record / alias / flag-name '
+                  'observations judged by laws in TLC (Trace_Values)',
+        text='Trackers.tla defines the player list (add overwrites, updates and removals of unknown players are no-ops), the map set '
+             '(map created on first sight, pixel i at offset + (i mod w, i div w), flags copied) and the position tracker (relative '
+             'flags add, angles wrap to [0,360)). TrackerModel.tla explores every history of <= 3 / 4 packets over an 18-packet alphabet '
+             'with PresenceLaw, UpdatesNeverCreate, MapCreatedOnFirstSight, AnglesWrapped as invariants; each history is applied through '
+             'the real packets\' apply methods and the projected tracker state compared. Seeded histories of up to 200 packets (3 uuids, '
+             '2 maps, all 32 flag combinations) are validated after every packet by TLC running the model. Vector arithmetic '
+             '(component-wise, operand type kept, incl. subclasses), record equality / hash laws, attribute aliases and the flag names '
+             'of every value 0..255 of the library\'s three flag enums and of generated enums (name parses back; None only when the value '
+             'is no union of members) are checked by TLC on recorded observations.',
+        note='Trusted: TLC, the projection of the real objects. Integer-valued coordinates; a 4x4 window of the 128x128 map.',
+        design='5/C20'),
     'C19': dict(
         technique='TLA+ model of the token (AuthToken.tla): one transition per (stored-field subset, operation, reply status x body '
                   'shape) fixing request, outcome and next state; TLC checks the invariants and emits every transition; one '
